@@ -5,6 +5,7 @@ FENCE_NOTE = ("Trusts: x86-64 Linux page protection and the fault error code (wr
               "and 20-40 line C models). Accesses inside mapped memory that is no arena slot are not observed.")
 
 ENGINES = [
+    {"name": "threads", "path": "harness/threads.c", "serves_properties": ["C12"], "kind_free_text": "thread stress + footprint monitor in common.h + TSan build"},
     {"name": "handlers", "path": "harness/handlers.c", "serves_properties": ["C13"], "kind_free_text": "handler-registration history executor with sequential model"},
     {"name": "erase", "path": "harness/erase/", "serves_properties": ["C18"], "kind_free_text": "victim/probe client matrix over optimisation levels and LTO"},
     {"name": "ct", "path": "harness/ct.c", "serves_properties": ["C19"], "kind_free_text": "timingsafe_* result differential + memcheck taint run"},
@@ -57,6 +58,11 @@ META = {
                   "with dmax/slen at, above and below the string lengths, and its answer compared with a reference computed on bounded "
                   "private copies; operands must be unchanged. Exhaustive inside the stated bounds, nothing beyond them.",
              note=FENCE_NOTE),
+ "C12": dict(technique="runtime monitoring: per-call snapshot of the loaded library's .data/.bss (footprint), multi-thread stress with thread-tagged expectations, ThreadSanitizer",
+             engine="threads",
+             text="Footprint (schedule independent): no call may change the library's own writable static storage other than the handler registrations. Interference: results of "
+                  "concurrent calls on private data equal their single-threaded values, with measured same-function overlap. TSan: no race with a library frame.",
+             note="Footprint needs the shared build linked -z now (lazy binding would show as footprints); TSan only sees instrumented code."),
  "C13": dict(technique="runtime monitoring: recorded operation histories on real threads checked online against a sequential model of the registration state",
              engine="handlers",
              text="Which probe handler runs (identity, kind, code) after every violating call, and what each registration returns, is compared with a model (thread-local if set, "
